@@ -35,6 +35,7 @@ func init() {
 type bkOpts struct {
 	kv, mm, delta bool
 	conc          int
+	lblk          int // DiskBlockSize while loading (0 = default): small values make the readers refill inside frames
 }
 
 func (o *bkOpts) flags(fs *flag.FlagSet) {
@@ -42,6 +43,7 @@ func (o *bkOpts) flags(fs *flag.FlagSet) {
 	fs.BoolVar(&o.mm, "mm", false, "")
 	fs.BoolVar(&o.delta, "delta", false, "")
 	fs.IntVar(&o.conc, "conc", 2, "")
+	fs.IntVar(&o.lblk, "lblk", 0, "DiskBlockSize used by LoadFromDisk")
 }
 
 func (o *bkOpts) cfg(writers int) nh.Cfg {
@@ -173,6 +175,9 @@ type loadOutcome struct {
 // caught, a panic in a goroutine spawned by the library kills the process (the parent attributes it
 // to the image announced last).
 func loadDir(dir string, o *bkOpts, watchdog time.Duration) loadOutcome {
+	if o.lblk > 0 {
+		nitro.DiskBlockSize = o.lblk
+	}
 	type res struct {
 		out loadOutcome
 	}
